@@ -237,6 +237,11 @@ func (cs *ContractSet) parseContractFile(file, pkgPath string) error {
 				pat = strings.ReplaceAll(pat, `/\*`, `/[^ ()]*`)
 				pat = strings.ReplaceAll(pat, `\.\*`, `\.[^ ()]*`)
 				cur.glob = regexp.MustCompile("^" + pat + "$")
+				for _, g := range cs.Globs {
+					if g.Key == cur.Key {
+						return errf(fmt.Errorf("duplicate contract %s (first at %s:%d)", cur.Key, g.File, g.Line))
+					}
+				}
 				cs.Globs = append(cs.Globs, cur)
 			} else {
 				if _, dup := cs.ByKey[cur.Key]; dup {
